@@ -248,7 +248,7 @@ def run_shard(types, tier, seed):
 def on_crash(res, shard, exitcode, crumb):
     """the worker died inside a generated accessor (wild address): that is the property failing, not the harness"""
     if exitcode is not None and exitcode < 0 and crumb:
-        res.violations.append(common.violation("C02.crash", "accessor-crashes:signal%d" % -exitcode, dict(signal=-exitcode), dict(types=[xt.show(t) for t in shard[:4]], last_call=crumb), "worker killed by signal %d during %s" % (-exitcode, crumb)))
+        res.violations.append(common.violation("C02.crash", "accessor-crashes:signal%d" % -exitcode, dict(signal=-exitcode), dict(types=[xt.show(t) for t in (list(shard[2:4]) if shard and shard[0] == "twins" else shard[1] if shard and isinstance(shard[0], str) else shard)[:4]], decl=shard[0] if shard and isinstance(shard[0], str) else "index", last_call=crumb), "worker killed by signal %d during %s" % (-exitcode, crumb)))
     else:
         res.notes.append("HARNESS-ERROR: worker died with exit code %r (%s)" % (exitcode, crumb[:200]))
 
